@@ -20,8 +20,11 @@ from .rustscan import ScanError
 ROOT = os.path.dirname(os.path.dirname(os.path.abspath(__file__)))
 REPO = os.environ.get('VERIF_REPO', '/repo')
 BUILD = os.path.join(ROOT, 'build')
-EVDIR = os.environ.get('VERIF_EVIDENCE_DIR') or os.path.join(ROOT, 'evidence')
-RPDIR = os.path.join(os.environ['VERIF_EVIDENCE_DIR'], 'replays') if os.environ.get('VERIF_EVIDENCE_DIR') else os.path.join(ROOT, 'replays')
+# evidence of a run against a scratch tree (VERIF_REPO) never lands in /verif/evidence
+_SCRATCH_EV = os.environ.get('VERIF_EVIDENCE_DIR') or (
+    os.path.join(BUILD, 'evidence_' + hashlib.sha1(REPO.encode()).hexdigest()[:8]) if REPO != '/repo' else None)
+EVDIR = _SCRATCH_EV or os.path.join(ROOT, 'evidence')
+RPDIR = os.path.join(_SCRATCH_EV, 'replays') if _SCRATCH_EV else os.path.join(ROOT, 'replays')
 
 
 def load_registry():
